@@ -56,9 +56,10 @@ def run(ctx):
     ctx.tlc_gen("MC_SnapshotRT", GEN.format(maxn=2, maxr=1, tokens=tset(["s: lead"]), dev="{}", maxh=4 if q else 6, extras=ALLX,
                                             view="VIEW View", emit="", inv="RoundTripIdeal"), "design", workers=W, timeout=3000)
     # (b) anti-vacuity: each deviation of the pinned tree, put into the model, must break the round trip
-    tests = [("trim", '{"s: lead"}', '{}'), ("versions", '{}', '{"versions"}'), ("ghost", '{}', '{"compact"}')]
+    tests = [("trim", '{"s: lead"}', '{}'), ("ghost", '{}', '{"compact"}')]
     if not q:
-        tests += [("nolabel", '{}', '{}'), ("nonfinite", '{"f:nan"}', '{}'), ("tagged", '{"m:{__type=s:DateTime;value=i:5}"}', '{}')]
+        tests += [("versions", '{}', '{"versions"}'), ("nolabel", '{}', '{}'), ("nonfinite", '{"f:nan"}', '{}'),
+                  ("tagged", '{"m:{__type=s:DateTime;value=i:5}"}', '{}')]
     for d, toks, ex in tests:
         ctx.tlc_gen("MC_SnapshotRT", GEN.format(maxn=2, maxr=1, tokens=toks, dev='{"%s"}' % d, maxh=6, extras=ex, view="VIEW View", emit="",
                                                 inv="RoundTripIdeal"), "selftest-" + d, expect_violation=True, workers=2)
@@ -75,7 +76,7 @@ def run(ctx):
     for depth in ((9,) if q else (6, 8, 10, 12)):
         scripts += ctx.tlc_gen("MC_SnapshotRT", GEN.format(maxn=3, maxr=3, tokens=tset(TOKENS), dev="{}", maxh=depth, extras=ALLX, view="",
                                                            emit="", inv="SimEmit"), "walks%d" % depth,
-                               simulate=(200 if q else 1500, depth + 1), workers=W, timeout=3000)
+                               simulate=(150 if q else 1500, depth + 1), workers=W, timeout=3000)
     ctx.assume("value fidelity is per class token (one concrete value per class: plain / leading / trailing / blank / empty / non-ASCII / "
                "escape-laden strings, i64 extremes, floats incl. -0.0, 1e300, NaN, +-inf, bool, datetime, duration, vectors, arrays, nested "
                "map, maps with a __type key, empty containers), at most one boundary token per graph",
